@@ -2,6 +2,14 @@
 //! detector: concurrent graph construction never hands out a node id twice.
 //! shuttle sees only hooked operations and models SeqCst; a counter moved to a
 //! `static mut`, or a racy read-modify-write, is flagged here instead.
+#![allow(dead_code)]
+#[path = "../../sim/src/gen.rs"]
+mod gen;
+#[path = "../../sim/src/rng.rs"]
+mod rng;
+#[path = "../../sim/src/spec.rs"]
+mod spec;
+
 use pushr::push::graph::Graph;
 use pushr::push::instructions::InstructionSet;
 use pushr::push::interpreter::PushInterpreter;
@@ -10,43 +18,69 @@ use pushr::push::state::PushState;
 use std::collections::BTreeSet;
 use std::thread;
 
-/// A small program touching integer, float, vector, code, name and topology
-/// instructions, built from items (no parser, to keep Miri's work small).
-fn subject() -> String {
+/// A generated RAND-free, graph-free subject (program and state from the workload seed given
+/// on the command line) plus a fixed tail touching topology, float, name and code instructions.
+fn subject_with(seed: u64) -> String {
     let mut iset = InstructionSet::new();
     iset.load();
-    let mut st = PushState::new();
-    let prog = vec![
+    let mut names = iset.cache().list;
+    names.sort();
+    let mut ctx = gen::GenCtx::new(&names);
+    ctx.exclude = names
+        .iter()
+        .filter(|n| n.contains("RAND") || n.starts_with("GRAPH.") || n.as_str() == "EXEC.CMD" || n.ends_with(".ONES") || n.ends_with(".ZEROS") || n.contains("NEIGHBOR") || n.as_str() == "FLOATVECTOR.SINE" || n.as_str() == "EXEC.Y")
+        .cloned()
+        .collect();
+    let mut r = rng::Rng::new(rng::derive(seed, "miri-subject"));
+    let mut cfg = spec::ConfigSpec::default_cfg();
+    cfg.eval_push_limit = 40;
+    let mut state = gen::gen_state(&mut rng::Rng::new(rng::derive(seed, "state")), &mut ctx);
+    state.graphs.clear();
+    for x in state.ints.iter_mut() {
+        if let spec::IntSpec::NodeId { .. } = x {
+            *x = spec::IntSpec::V(2);
+        }
+    }
+    let b = 6 + r.below(14) as usize;
+    let prog = vec![ctx.tree(&mut r, b, 2)];
+    let mut st = state.build(&cfg);
+    spec::load_program(&mut st, &iset, &prog, false);
+    let tail = vec![
         Item::int(2),
         Item::int(14),
         Item::int(36),
         Item::float(1.5),
         Item::instruction("LIST.NEIGHBOR*IDS".into()),
-        Item::int(7),
-        Item::int(5),
-        Item::instruction("INTEGER.*".into()),
         Item::float(0.5),
         Item::instruction("FLOAT.SIN".into()),
         Item::name("x".into()),
         Item::instruction("INTEGER.DEFINE".into()),
         Item::name("x".into()),
-        Item::instruction("CODE.QUOTE".into()),
-        Item::list(vec![Item::int(1), Item::int(2)]),
-        Item::instruction("CODE.DUP".into()),
-        Item::instruction("CODE.LIST".into()),
         Item::instruction("CODE.SIZE".into()),
     ];
-    let mut rev = prog;
+    let mut rev = tail;
     rev.reverse();
-    st.exec_stack.push(Item::list(rev));
+    st.exec_stack.push_front(Item::list(rev));
     let o = PushInterpreter::run(&mut st, &mut iset);
     format!("{:?} {}", o, st.to_string())
 }
+
+thread_local! {
+    static WORKLOAD: std::cell::Cell<u64> = std::cell::Cell::new(0);
+}
+
+fn subject() -> String {
+    subject_with(WORKLOAD_SEED.load(std::sync::atomic::Ordering::Relaxed))
+}
+
+static WORKLOAD_SEED: std::sync::atomic::AtomicU64 = std::sync::atomic::AtomicU64::new(0);
 
 fn main() {
     let args: Vec<String> = std::env::args().collect();
     let threads: usize = args.get(1).and_then(|a| a.parse().ok()).unwrap_or(3);
     let adds: usize = args.get(2).and_then(|a| a.parse().ok()).unwrap_or(3);
+    let workload: u64 = args.get(3).and_then(|a| a.parse().ok()).unwrap_or(0);
+    WORKLOAD_SEED.store(workload, std::sync::atomic::Ordering::Relaxed);
     let mut handles = vec![];
     for t in 0..threads {
         handles.push(thread::spawn(move || {
